@@ -381,6 +381,16 @@ class QGen:
             else:
                 cte, _ = self.select(1, simple=True)
                 ccols = ["id", "name"]
+            if r.random() < 0.2 and nm not in ("authors",):
+                # data-modifying main statement under a WITH clause: the target of SET / the deleted relation is the
+                # statement's own table, whatever the CTE reads
+                t = r.choice(tabs)
+                cols = self.s.tables[t]
+                if r.random() < 0.6:
+                    main = "UPDATE %s SET %s = %s WHERE %s IN (SELECT %s FROM %s)" % (t, r.choice(cols), self.ph(), r.choice(cols), r.choice(ccols), nm)
+                else:
+                    main = "DELETE FROM %s WHERE %s IN (SELECT %s FROM %s)" % (t, r.choice(cols), r.choice(ccols), nm)
+                return "WITH %s AS (%s) %s" % (nm, cte, main), "update" if main.startswith("UPDATE") else "delete"
             saved = self.s.tables
             self.s.tables = dict(saved)
             self.s.tables[nm] = ccols
